@@ -10,8 +10,23 @@ def run(rep, tier, seed, args):
                 'version component an unbounded symbolic int >= 0; non-trivial = start() was reached; paths distinct (disjoint conditions on the components)')
     rep.bounds = {'version_components': '0 (no api_version) .. 3, each unbounded', 'signature kinds': sorted(K.KINDS),
                   'configured api_version': 'absent / the same / another version of 1-2 (thorough 3) symbolic components', 'run': 'until=3, producer + stub + current-version twin',
-                  'outside': 'malformed version strings (non-digits, empty components), remote simulators (RemoteProxy.init), event-based/hybrid old-API simulators'}
+                  'outside': 'malformed version strings (non-digits, empty components), remote simulators (RemoteProxy.init)', 'crosshair': 'version strings of <= 5 characters, single-digit components'}
     rep.assumptions = ["version strings are structured objects whose split('.') yields components that a symbolic-aware int() (bound to the name int in mosaik.proxies and mosaik.adapters) maps to symbolic ints; CPython's str.split and int() are trusted; concrete replay uses real strings",
                        'list comparison of versions is executed for real (forks element-wise)',
                        'a v3 simulator without a type is rejected by ModelFactory; this is accepted by the oracle but is not one of the C15 rejection reasons']
+    # second engine on version strings (DESIGN.md C15): CrossHair, the real extract_version + init_and_get_adapter on a symbolic str
+    from vk.xcheck import crosshair_c15
+    xr = crosshair_c15.run(timeout=90)
+    rep.side['crosshair_version_strings'] = xr
+    main, twin = xr['adapt_by_version_string'], xr['reach_twin']
+    rep.notes.append('CrossHair 0.0.110 decides the adaptation class for every version string of <= 5 characters made of single digits separated by '
+                     'single dots (real extract_version / init_and_get_adapter, string symbolic); its verdict is a side result, a counterexample string is '
+                     'replayed by the harness string_case on the real code before it is reported; the reachability twin must be violated')
+    if twin['verdict'] != 'counterexample':
+        rep.notes.append(f"CrossHair reachability twin not violated ({twin['verdict']}): its verdict on version strings is not counted")
+        rep.side['crosshair_version_strings']['counted'] = False
+    if main['verdict'] == 'counterexample':
+        jobs.append({'id': f"string|{main['example']}", 'harness': 'vk.kernels.c15:string_case', 'params': {'s': main['example']}})
+    for s0 in ('3', '2.2', '2.1.9', '4.0', '0'):
+        jobs.append({'id': f'string|{s0}', 'harness': 'vk.kernels.c15:string_case', 'params': {'s': s0}})
     rep.add_jobs(common.run_jobs(jobs))
